@@ -213,12 +213,19 @@ replay_c20.what = ('system-call trace (strace) of get/touch/set/put/ensure throu
                    '2 (3 with a checker) descriptors at once, none left open, <= 2 open attempts per directory for a lookup, put/set onto an entry with an extra hard link completes')
 
 
+def replay_c03(failure, tier):
+    """C03: the fault-injection search (a failed flush is never followed by publication) and the system-call trace, which
+    compares a cache from a reused builder with one from a fresh builder (the flush before publication must be there)."""
+    return replay.c18_search(tier) or replay.c20_search(tier)
+
+
 def replay_c18(failure, tier):
     """Bounded stand-in for C18 / C03 / C05: every system call of one operation fails in turn (strace fault injection);
     see replay/src/c18.rs and tools/replay.py::c18_search."""
     return replay.c18_search(tier)
 
 
+replay_c03.what = 'see replay_c18.what; plus the system-call trace of replay_c20, which compares the calls of set / ensure / put through a cache from a builder reused after take() with those of a cache from a fresh builder'
 replay_c18.what = ('fault injection (strace -e inject, EIO) into every system call, one at a time, of set / put / ensure (miss, promotion) / Replace / checked get through a stacked '
                    'cache (134 single-fault runs; 301 over 17 scenarios in the thorough tier): no panic but the documented one, Ok implies the effect, Err is gone on re-issue, '
                    'visible files are complete and read-only, no temporary file is left, a failed flush is never followed by publication')
@@ -443,7 +450,7 @@ _u4('C03', 'Proof that rename/link require `must_sync ==> synced` and `!writable
     'require a flushed source when auto_sync is on (value_ok), and that every publishing path of stack.rs establishes it: set::doit / put::doit through maybe_sync_path (open + fsync, '
     'documented panic on failure), set_temp_file / put_temp_file / get_or_update miss and replace through Cache::finalize_tempfile, promotion through finalize_tempfile(tmp, auto_sync) '
     'after the copy; a failed flush returns Err before any publication; nothing clears the synced flag except writing, and only invisible files are ever written.',
-    replayer=replay_c18, thorough=thorough_c18('C03'),
+    replayer=replay_c03, thorough=thorough_c18('C03'),
     not_covered=['the two-line shims Cache::{set, put, set_temp_file, put_temp_file} that forward to the `doit` functions under contract are generic and dropped'])
 PROPS['C10']['units'] = ['u2_trigger', 'u0_stubs', 'u6_stack']
 PROPS['C10']['assumptions'] += FS_ASSUMPTIONS
